@@ -27,6 +27,8 @@ struct Real<T: Sample> {
     rs: ReadStream<T>,
     w: Option<BufferWriter<T>>,
     w2: Option<BufferWriter<T>>,
+    /// a second read window (stale once the other one has consumed)
+    r2: Option<BufferReader<T>>,
     r: Option<(BufferReader<T>, Vec<Tag>)>,
     produced: u64,
     modulus: u64,
@@ -41,6 +43,7 @@ impl<T: Sample> Real<T> {
             rs,
             w: None,
             w2: None,
+            r2: None,
             r: None,
             produced: 0,
             modulus,
@@ -233,6 +236,42 @@ fn replay_path<T: Sample>(size: usize, steps: &[Value]) -> Result<usize, String>
             }
             "dropr" => {
                 real.r = None;
+                check_state(&real)?;
+            }
+            "acqr2" => {
+                // a second read window while the first is held
+                let (r, _) = match catch(|| real.rs.read_buf()) {
+                    Ok(Ok(x)) => x,
+                    Ok(Err(e)) => return fail(format!("second read_buf error {e}")),
+                    Err(p) => return fail(format!("second read_buf panic {p}")),
+                };
+                let (s, e) = r.verif_range();
+                let want = (to["rstale"][0].as_u64().unwrap() as usize, to["rstale"][1].as_u64().unwrap() as usize);
+                if (s, e - s) != want {
+                    return fail(format!("second read window ({s},{}) expected {want:?}", e - s));
+                }
+                real.r2 = Some(r);
+                check_state(&real)?;
+            }
+            "dropstale_r" => {
+                real.r2 = None;
+                check_state(&real)?;
+            }
+            "consume_stale" => {
+                // consume through the window that is stale by now: acts on the live state
+                let m = act["m"].as_u64().unwrap() as usize;
+                let r = real.r2.take().unwrap();
+                if let Err(p) = catch(move || r.consume(m)) {
+                    return fail(format!("consume through the second read window panicked: {p}"));
+                }
+                check_state(&real)?;
+            }
+            "stale_consume_refused" => {
+                let m = act["m"].as_u64().unwrap() as usize;
+                let r = real.r2.take().unwrap();
+                if catch(move || r.consume(m)).is_ok() {
+                    return fail("consume through a stale read window of more than is buffered was accepted".to_string());
+                }
                 check_state(&real)?;
             }
             "consume_refused" => {
